@@ -1,4 +1,4 @@
-//! `hist <json>`: {"ops": [["edit", path, text] | ["root", path] | ["setonly", path, text]], "offsets": n}
+//! `hist <json>`: {"ops": [["edit", path, text] | ["editroot", path, text] | ["root", path] | ["disk", path, text]]}
 //! Runs the history on a real AnalysisHost + in-memory file system, then runs the full query set
 //! on the final workspace, and the same query set on a freshly started host given only the
 //! final file contents and the final root. Prints {"hist": <answers>, "fresh": <answers>, "state": ..}.
@@ -89,6 +89,16 @@ pub fn run(rest: &str) -> String {
                 host.set_file_content(id, Arc::from(text.as_str()));
                 host.set_root_file(&mut fs, id);
                 root = Some(path);
+            }
+            // the file changes on disk behind the host's back (an included file that is not open); the server notices
+            // when it collects the sources of the current root the next time
+            "disk" => {
+                let text = op[2].as_str().unwrap_or("").to_string();
+                fs.files.insert(fp.clone(), text);
+                if let Some(r) = &root {
+                    let rid = fs.assign_or_get_file_id(FilePath::from(Path::new(r)));
+                    host.set_root_file(&mut fs, rid);
+                }
             }
             "root" => {
                 if let Some(text) = fs.files.get(&fp).cloned() {
